@@ -88,12 +88,30 @@ def gen_pair(rng):
             i, j = rng.sample(range(len(act)), 2)
             act[i], act[j] = act[j], act[i]
             muts.append('swap')
-        elif k < 0.95:
+        elif k < 0.93:
             act.append('')
             muts.append('trailing-empty')
+        elif k < 0.96:
+            act.append(rng.choice(['  ', '\t', ' ', ' \t ']))       # a last line holding only blanks is still a line
+            muts.append('trailing-blank')
         else:
             act.insert(rng.randrange(len(act) + 1), 'RM optional %d' % rng.randrange(10))
             muts.append('insert-removable')
+    if rng.random() < 0.04 and n >= 1:
+        # repeated lines among the differing ones: a true permutation has the same lines the same NUMBER of times
+        a, b = 'dup %d alpha' % rng.randrange(100), 'dup %d beta' % rng.randrange(100)
+        k = rng.randrange(len(ref) + 1)
+        if rng.random() < 0.5:
+            rb, ab = [a, b, b], [b, a, a]          # same set of lines, different counts: not a permutation
+            muts.append('dup-not-a-permutation')
+        else:
+            rb, ab = [a, b, b], [b, b, a]          # a permutation with a repeated line
+            muts.append('dup-permutation')
+        ref[k:k] = rb
+        act[min(k, len(act)):min(k, len(act))] = ab
+    if muts and rng.random() < 0.1:
+        act, ref = ref, act              # the same differences, with the reference as the richer side
+        muts = ['swapped-sides'] + muts
     return act, ref, muts
 
 
